@@ -9,6 +9,7 @@ from vp.engine import SubCheck, machine_base, replay_history
 
 PROPERTY = "C15"
 RULE = (
+    "(extended) data and noise in flux units of 2**k, k in {-10,0,10,14,18}. "
     "subsets: C04-style scenarios (1..3 linear objects mixing rectangular / Delaunay mappers and function lists, "
     "square/non-square, signed PSFs) x both formalisms x every one of the 2^5 subsets of the preload slots {w_tilde, "
     "curvature_matrix, regularization_matrix, log_det_regularization_matrix_term, operated_mapping_matrix} "
